@@ -7,6 +7,9 @@ T = "ahbicht.expressions.format_constraint_expression_evaluation:"
 TARGETS = [T + "FormatConstraintTransformer." + m for m in ("and_composition", "or_composition", "xor_composition")] + [
     T + "evaluate_format_constraint_tree", T + "format_constraint_evaluation",
     "ahbicht.content_evaluation.fc_evaluators:FcEvaluator.evaluate_single_format_constraint",
+    # every key of the expression gets the verdict computed for THAT key (the leaves the fold starts from)
+    "ahbicht.content_evaluation.fc_evaluators:FcEvaluator.evaluate_format_constraints",
+    T + "_build_evaluated_format_constraint_nodes#body",
     "ahbicht.expressions.base_transformer:BaseTransformer.condition"]
 
 
